@@ -113,14 +113,17 @@ Definition err_code_of_return (s : st) (code : Z) : Z :=
   else if code =? -4 then 4                             (* a raw context.DeadlineExceeded value: DeadlineExceeded *)
   else code.
 
-(* server RecvMsg: readMessage(s.ctx, requests); takes no lock, so it runs beside a SendMsg *)
+(* server RecvMsg: readMessage(s.recvCtx, requests); takes no lock, so it runs beside a SendMsg.
+   recvCtx is the context that ends when the stream's context does and also as soon as the handler has
+   returned (onDone), before finish flushes the final frames *)
+Definition rctx (s : st) : Z := if negb (cctx s =? 0) then cctx s else if svrCancelled s || svrDone s then 1 else 0.
 Definition srv_recv (s : st) (a : actor) : list outcome :=
   (match reqQ s with
    | x :: r => [done (upd_req s r (reqClosed s) (sendClosed s) (panicked s)) a
-                     (if sctx s =? 0 then RMsg x else RCtx (sctx s))]
-   | [] => if reqClosed s then [done s a (if sctx s =? 0 then REOF else RCtx (sctx s))] else []
+                     (if rctx s =? 0 then RMsg x else RCtx (rctx s))]
+   | [] => if reqClosed s then [done s a (if rctx s =? 0 then REOF else RCtx (rctx s))] else []
    end) ++
-  (if negb (sctx s =? 0) then [done s a (RCtx (sctx s))] else []).
+  (if negb (rctx s =? 0) then [done s a (RCtx (rctx s))] else []).
 
 Definition steps_of (s : st) (a : actor) (p : pend) : list outcome :=
   match a, p with
